@@ -433,6 +433,69 @@ var zline3 = ZLine{} // @ignore CTOR01
 `)
 }
 
+func init() {
+	// predeclared identifiers shadowed locally and used with other arities /
+	// kinds than the builtins have (checkers that recognise new / make / len by
+	// spelling must not index into the argument list)
+	c10Zoo = append(c10Zoo, `package {{PKG}}
+
+// @immutable
+// @constructor newZShadow
+// @testonly
+type ZShadow struct{ n int }
+
+func newZShadow() *ZShadow { return &ZShadow{} }
+
+func zshadowCalls(z *ZShadow) {
+	new := func(args ...int) *ZShadow { return z }
+	make := func() []ZShadow { return nil }
+	len := func(a, b, c int) int { return a }
+	append := func() {}
+	panic := func(x, y int) {}
+	recover := func(s string) string { return s }
+	delete := func() *ZShadow { return z }
+	copy := func(z ZShadow) ZShadow { return z }
+	_ = new()
+	_ = new(1, 2, 3)
+	new().n = 1
+	new(1).n++
+	_ = make()
+	_ = len(1, 2, 3)
+	append()
+	panic(1, 2)
+	_ = recover("x")
+	delete().n = 2
+	_ = copy(ZShadow{}).n
+}
+
+func zshadowTypes() {
+	type int struct{ n ZShadow }
+	type string = ZShadow
+	type error interface{ M(ZShadow) }
+	var x int
+	x.n.n = 1
+	var s string
+	s.n = 2
+	_ = s
+	nil := &ZShadow{}
+	nil.n = 3
+	true := ZShadow{}
+	true.n = 4
+	iota := []ZShadow{{}}
+	iota[0].n = 5
+	_ = func(e error) {}
+}
+
+func zshadowParams(new func() *ZShadow, make ZShadow, cap, len *ZShadow) (string ZShadow) {
+	new().n = 1
+	make.n = 2
+	cap.n, len.n = 3, 4
+	string.n = 5
+	return
+}
+`)
+}
+
 // c10CommentGen draws comment text for the skeleton's slots.
 func c10CommentGen() *rapid.Generator[string] {
 	piece := rapid.OneOf(
